@@ -467,6 +467,8 @@ package prunner
 //@ pure retPeriod(r *PipelineRunner, j *PipelineJob) int = r.defs.Pipelines[j.Pipeline].RetentionPeriod
 //@ pure retCount(r *PipelineRunner, j *PipelineJob) int = r.defs.Pipelines[j.Pipeline].RetentionCount
 //@ ghost $passDom array Bool
+// number of appends to a per-pipeline list performed by initialLoadFromStore (one per persisted job)
+//@ ghost $loadAppends scalar Int
 //@ ghost $logsRemoveFailed array Bool
 // every real UUID is recovered from its string form (uuid.FromString(id.String()) == id)
 //@ pure idRoundTrips(id uuid.UUID) bool = uf1(2, uf1(1, id)) == id
@@ -518,6 +520,9 @@ package prunner
 //@   loop 1 invariant [clock] $clock >= old($clock)
 //@   loop 2 invariant [distinct] distinctElems(sortedJobsInPipeline)
 //@   loop 2 invariant [sorted] all(sortedJobsInPipeline, nonNil) && all(sortedJobsInPipeline, regWeak, r) && (forall k :: $i < k && k < len(sortedJobsInPipeline) ==> registered(sortedJobsInPipeline[k], r)) && fresh(base(sortedJobsInPipeline)) && 0 <= $i + 1 && $i + 1 <= len(sortedJobsInPipeline)
+//@   loop 3 invariant [C10.complete] len(data.Jobs) == card($seen) && (forall k uuid.UUID :: $seen[k] ==> (k in r.jobsByID)) && (forall n :: 0 <= n && n < len(data.Jobs) ==> $seen[data.Jobs[n].ID]) && (forall n1, n2 :: 0 <= n1 && n1 < n2 && n2 < len(data.Jobs) ==> data.Jobs[n1].ID != data.Jobs[n2].ID)
+//@   loop 4 invariant [C10.complete] len(data.Jobs) == card($seen3) - 1 && (forall k uuid.UUID :: $seen3[k] ==> (k in r.jobsByID)) && (forall n :: 0 <= n && n < len(data.Jobs) ==> $seen3[data.Jobs[n].ID] && data.Jobs[n].ID != job.ID) && (forall n1, n2 :: 0 <= n1 && n1 < n2 && n2 < len(data.Jobs) ==> data.Jobs[n1].ID != data.Jobs[n2].ID) && $seen3[job.ID]
+//@   at call Save#1: assert [C10.complete] len(data.Jobs) == len(r.jobsByID) && (forall n1, n2 :: 0 <= n1 && n1 < n2 && n2 < len(data.Jobs) ==> data.Jobs[n1].ID != data.Jobs[n2].ID)
 //@   loop 3 invariant [ri] RI(r) && r.defs == old(r.defs) && jobsUntouched() && liveKept(r) && sameExcept("map(map[string][]*PipelineJob)", old(r.jobsByPipeline)) && $held == 2 && fresh(data) && fresh(base(data.Jobs)) && wf(data.Jobs) && snapshotFaithful(r, data) && same("jobTask.*") && same(PipelineJob.Tasks) && same(PipelineJob.Variables) && same(PipelineJob.User) && same(PipelineJob.Created)
 //@   loop 4 invariant [ri] RI(r) && r.defs == old(r.defs) && jobsUntouched() && liveKept(r) && sameExcept("map(map[string][]*PipelineJob)", old(r.jobsByPipeline)) && $held == 2 && fresh(data) && fresh(base(data.Jobs)) && wf(data.Jobs) && snapshotFaithful(r, data) && same("jobTask.*") && same(PipelineJob.Tasks) && same(PipelineJob.Variables) && same(PipelineJob.User) && same(PipelineJob.Created) && 0 <= $i + 1 && $i + 1 <= len(tasks) && fresh(base(tasks)) && off(tasks) == 0 && len(tasks) == len(job.Tasks) && job != nil && r.jobsByID[job.ID] == job && (job.ID in r.jobsByID) && base(tasks) != base(data.Jobs) && forall k :: 0 <= k && k <= $i ==> persistedTaskOf(tasks[k], job.Tasks[k])
 
@@ -589,6 +594,10 @@ package prunner
 //@   loop 1 invariant [maps] r.jobsByID == old(r.jobsByID) && r.jobsByPipeline == old(r.jobsByPipeline) && r.waitListByPipeline == old(r.waitListByPipeline) && !$pub[r] && !$pub[r.jobsByID] && !$pub[r.jobsByPipeline] && r.jobsByPipeline != nil && r.jobsByID != nil && r.jobsByPipeline != r.waitListByPipeline
 //@   loop 1 invariant [lists] (forall p string :: freshOrNil(r.jobsByPipeline[p]) && wf(r.jobsByPipeline[p]) && all(r.jobsByPipeline[p], terminalJob)) && (forall p string :: !(p in r.waitListByPipeline)) && (forall id uuid.UUID :: (id in r.jobsByID) ==> terminalJob(r.jobsByID[id]))
 //@   loop 1 invariant [sep] forall p string, q string :: p != q && base(r.jobsByPipeline[p]) != 0 ==> base(r.jobsByPipeline[p]) != base(r.jobsByPipeline[q])
+//@   at after mapupdate#2: assert [C10.listedEach] lastOf(r.jobsByPipeline[pJob.Pipeline]) == job && job.Pipeline == pJob.Pipeline && job.ID == pJob.ID
+//@   at after mapupdate#2: ghost $loadAppends := $loadAppends + 1
+//@   loop 1 invariant [C10.listedEach] $loadAppends == old($loadAppends) + $i + 1
+//@   loop 2 invariant [C10.listedEach] $loadAppends == old($loadAppends) + $i1 + 1
 //@   loop 1 invariant [C10.noLoss] forall k :: 0 <= k && k <= $i ==> (data.Jobs[k].ID in r.jobsByID)
 //@   loop 2 invariant [C10.noLoss] forall k :: 0 <= k && k < $i1 ==> (data.Jobs[k].ID in r.jobsByID)
 //@   at return: assert [C10.noLoss] err == nil ==> forall k :: 0 <= k && k < len(data.Jobs) ==> (data.Jobs[k].ID in r.jobsByID)
@@ -632,9 +641,9 @@ package prunner
 //@ property C05: prunner.*/ensures[C05.*] prunner.*/monitor[RI] prunner.*/ensures[ri] prunner.*/call-pre[*.ri]* prunner.*/loop*/inv-*[ri] prunner.removeJobFromWaitList/* prunner.(*PipelineRunner).runningJobsCount/* prunner.*/ensures[C15.reject] prunner.*/ensures[C15.accept] lemma/cntFrame* prunner.*/loop*/inv-*[others] prunner.*/loop*/inv-*[mine] prunner.*/loop*/inv-*[purged] prunner.(*PipelineRunner).startJobsOnWaitList/* prunner.(*PipelineRunner).startJob/* prunner.(*PipelineRunner).cancelJobInternal/* prunner.removeJobFromWaitList/* prunner.*/safety prunner.*/assert[wl*] prunner.*/assert[dist*]
 //@ property C06: prunner.*/ensures[C06.*] prunner.(*PipelineRunner).ScheduleAsync/ensures[C05.queue] prunner.(*PipelineRunner).ScheduleAsync/ensures[C05.replace] prunner.(*PipelineRunner).ScheduleAsync/ensures[C05.start] prunner.(*PipelineRunner).startJobsOnWaitList/loop* prunner.*/call-pre[(*PipelineRunner).startJob.offList]* prunner.removeJobFromWaitList/* prunner.*/monitor[RI] prunner.*/ensures[C12.waitLists] prunner.(*PipelineRunner).startJobsOnWaitList/* prunner.(*PipelineRunner).startJob/* prunner.(*PipelineRunner).cancelJobInternal/* prunner.removeJobFromWaitList/* prunner.*/ensures[T] prunner.*/ensures[ri] prunner.*/call-pre[*.ri]* prunner.*/ensures[C12.keepLive]
 //@ property C07: prunner.*/ensures[C07.*] prunner.*/call-pre[(*PipelineRunner).startJob.timerDone]* prunner.*/ensures[C03.timerTruth] prunner.*/ensures[C03.progress] prunner.(*PipelineRunner).ScheduleAsync/ensures[C05.replace] prunner.(*PipelineRunner).startJob/ensures[skipCanceled] prunner.(*PipelineRunner).resolveDequeueJobAction/ensures* prunner/writers[PipelineJob.startTimer] prunner/writers[PipelineJob.StartDelay] prunner.*/monitor[RI] prunner.*/ensures[ri] prunner.*/call-pre[*.ri]* prunner/writers[PipelineJob.Created] prunner/writers[PipelineJob.Start]
-//@ property C10: prunner.*/ensures[C10.*] prunner.(*PipelineRunner).initialLoadFromStore/loop* prunner.buildJobFromPersistedJob/* helper.*/ensures* store/globalinit[json] store.(*JsonDataStore).Load/ensures[C09.load] prunner.*/assert[C10.*] prunner.(*PipelineJob).isRunning/ensures* prunner.(*PipelineRunner).SaveToStore/loop3/* prunner.(*PipelineRunner).SaveToStore/loop4/* lemma/cntZero* prunner.(*PipelineRunner).initialLoadFromStore/ensures* store.(*JsonDataStore).Save/*
+//@ property C10: prunner.*/ensures[C10.*] prunner.(*PipelineRunner).initialLoadFromStore/loop* prunner.buildJobFromPersistedJob/* helper.*/ensures* store/globalinit[json] store.(*JsonDataStore).Load/ensures[C09.load] prunner.*/assert[C10.*] prunner.(*PipelineJob).isRunning/ensures* prunner.(*PipelineRunner).SaveToStore/loop3/* prunner.(*PipelineRunner).SaveToStore/loop4/* lemma/cntZero* prunner.(*PipelineRunner).initialLoadFromStore/ensures* store.(*JsonDataStore).Save/* prunner.(*PipelineRunner).SaveToStore/*[C10.complete] prunner.(*PipelineRunner).initialLoadFromStore/*[C10.listedEach]
 //@ property C11: prunner.*/ensures[C11.*] prunner.*/assert[C11.*] prunner.(*PipelineRunner).Shutdown/loop* prunner.(*PipelineRunner).Shutdown/monitor[RI] prunner.(*PipelineRunner).Shutdown/ensures[T] prunner.(*PipelineRunner).Shutdown$1/* prunner/writers[PipelineRunner.isShuttingDown] prunner.*/guarantee[gate] prunner.(*PipelineRunner).Shutdown/guarantee[T] prunner/interference[captured] prunner.(*PipelineRunner).Shutdown$1/frame* prunner.*/guarantee[noStart] prunner.*/guarantee[noNew] prunner.*/monitor[RI] prunner.*/ensures[ri] prunner.*/call-pre[*.ri]* prunner.(*PipelineRunner).startJobsOnWaitList/*[C11.*] prunner.(*PipelineRunner).SaveToStore/loop*[C11.noNew]
-//@ property C12: prunner.*/ensures[C12.*] prunner.(*PipelineRunner).SaveToStore/* prunner.removeJobFromList/* prunner.byCreationTimeDesc/ensures* prunner.*/assert[dist*] prunner.*/monitor[RI] prunner.(*PipelineRunner).determineIfJobShouldBeRemoved/* prunner.*/assert[wl*] prunner.(*PipelineRunner).initialLoadFromStore/*[C10.noLoss] prunner.(*PipelineRunner).SaveToStore/*[C01.listKeepsLive]
+//@ property C12: prunner.*/ensures[C12.*] prunner.(*PipelineRunner).SaveToStore/* prunner.removeJobFromList/* prunner.byCreationTimeDesc/ensures* prunner.*/assert[dist*] prunner.*/monitor[RI] prunner.(*PipelineRunner).determineIfJobShouldBeRemoved/* prunner.*/assert[wl*] prunner.(*PipelineRunner).initialLoadFromStore/*[C10.noLoss] prunner.(*PipelineRunner).SaveToStore/*[C01.listKeepsLive] prunner.(*PipelineRunner).initialLoadFromStore/*[C10.listedEach]
 //@ property C13: prunner.*/lock[read] prunner.*/lock[write] prunner.*/lockproto[*] prunner.*/call-pre[*.lockmode]* prunner.*/call-pre[*.guard]* prunner.*/call-pre[*.empty]* prunner.*/ensures[unpublished] prunner/interference[captured] prunner.*/guarantee[*]
 //@ property C15: prunner.*/ensures[C15.*] prunner.(*PipelineRunner).resolveScheduleAction/ensures[range] prunner.(*PipelineRunner).isRunning/loop* prunner.(*PipelineRunner).ReadJob/* prunner.(*PipelineRunner).IterateJobs/ensures* prunner.(*PipelineRunner).ListPipelines/ensures* prunner.(*PipelineRunner).ListPipelines/loop* prunner.(*PipelineJob).isRunning/ensures* prunner.*/monitor[RI] prunner.*/ensures[ri] prunner.*/call-pre[*.ri]* prunner/writers[PipelineJob.End] prunner/writers[PipelineJob.Created] prunner/writers[PipelineJob.Start] prunner.(*PipelineRunner).SaveToStore/*[C01.listKeepsLive]
 //@ property C08: prunner.*/assert[C08.*] prunner.(*PipelineRunner).JobCompleted/ensures[C04.verdict] prunner.*/assert[C04.cancelMeansError] prunner.(jobTasks).ByName/*
